@@ -49,7 +49,7 @@ def record(job):
                 big = raw * amp_big(p)
             except Exception:
                 continue
-            if view(big).shape == np.asarray(val).shape and np.allclose(view(big), val, rtol=0, atol=1e-9):
+            if view(big).shape == np.asarray(val).shape and np.allclose(view(big), val, rtol=1e-9, atol=1e-300):
                 return [r, p]
         return [-1, -1]
 
@@ -86,8 +86,9 @@ def record(job):
                 o.set_pathloss(None, None) if ext else o.set_pathloss(None)
                 pls.append(None)
             else:
-                main = rs.uniform(0.05, 2.0, size=(K, K))
-                extm = rs.uniform(0.05, 2.0, size=(K, E))
+                # path losses over many orders of magnitude (120 dB and more are ordinary values)
+                main = 10.0 ** rs.uniform(-14, 2, size=(K, K))
+                extm = 10.0 ** rs.uniform(-14, 2, size=(K, E))
                 o.set_pathloss(main, extm) if ext else o.set_pathloss(main)
                 pls.append((main, extm))
             ev.append({"op": "SetPathloss"})
